@@ -349,6 +349,118 @@ macro_rules! ansmsg_row {
     };
 }
 
+/// C18 (ANS part): size / emptiness / exhaustion queries after every step of a push/pop history.
+macro_rules! anssize_row {
+    ($name:ident, $label:literal, $W:ty, $S:ty, $plist:tt) => {
+        pub fn $name(src: &mut Src, ctx: &mut Ctx) -> CaseResult {
+            type Coder = AnsCoder<$W, $S, Vec<$W>>;
+            const PRECS: &[u32] = &precs!($plist);
+            ctx.label(concat!("cfg:", $label));
+            note!(ctx, "cfg {}", $label);
+            let wbits = <$W>::BITS as usize;
+            let start = src.below(3);
+            let data: Vec<$W> = gen_words(src, wbits as u32, 6).into_iter().map(|x| x as $W).collect();
+            let mut coder: Coder = match start {
+                0 => Coder::new(),
+                1 => {
+                    let mut d = data.clone();
+                    if let Some(l) = d.last_mut() {
+                        if *l == 0 {
+                            *l = 1;
+                        }
+                    }
+                    match Coder::from_compressed(d) {
+                        Ok(c) => c,
+                        Err(_) => {
+                            ctx.discard("foreign:C01/import_rejected");
+                            return Ok(());
+                        }
+                    }
+                }
+                _ => {
+                    let c = Coder::from_binary(data.clone()).unwrap_infallible();
+                    note!(ctx, "from_binary({})", hexwords(&data));
+                    vcheck!(
+                        c.num_valid_bits() == wbits * data.len(),
+                        "C18/ans_num_valid_bits_after_from_binary",
+                        "from_binary({}) reports {} valid bits, the data has {}",
+                        hexwords(&data),
+                        c.num_valid_bits(),
+                        wbits * data.len()
+                    );
+                    ctx.label("from_binary");
+                    c
+                }
+            };
+            let mut pending: Vec<(usize, Tab)> = Vec::new();
+            let max_ops = if ctx.tier == 0 { 60 } else { 400 };
+            let mut ops = 0;
+            let mut probes_nonempty_bulk = 0;
+            loop {
+                // ---- probe ---------------------------------------------------------------
+                let ex: Vec<$W> = coder.clone().into_compressed().unwrap_infallible();
+                vcheck!(coder.num_words() == ex.len(), "C18/ans_num_words", "num_words() = {} but the export {} has {} words (state {:x})", coder.num_words(), hexwords(&ex), ex.len(), coder.state());
+                vcheck!(coder.num_bits() == wbits * ex.len(), "C18/ans_num_bits", "num_bits() = {} but the export has {} words", coder.num_bits(), ex.len());
+                vcheck!(coder.is_empty() == ex.is_empty(), "C18/ans_is_empty", "is_empty() = {} but the export has {} words", coder.is_empty(), ex.len());
+                let mx = <Coder as Decode<1>>::maybe_exhausted(&coder);
+                if ex.is_empty() {
+                    vcheck!(mx, "C18/ans_not_exhausted_when_empty", "maybe_exhausted() is false on a coder whose export is empty");
+                }
+                if !coder.bulk().is_empty() {
+                    probes_nonempty_bulk += 1;
+                    vcheck!(!mx, "C18/ans_exhausted_with_words_left", "maybe_exhausted() is true with {} whole words in bulk", coder.bulk().len());
+                }
+                if let Some(&top) = ex.last() {
+                    // valid bits = everything below the leading one bit of the last word
+                    let top_bits = wbits - top.leading_zeros() as usize;
+                    let expect = wbits * (ex.len() - 1) + top_bits - 1;
+                    vcheck!(coder.num_valid_bits() == expect, "C18/ans_num_valid_bits", "num_valid_bits() = {} but the export {} holds {} payload bits", coder.num_valid_bits(), hexwords(&ex), expect);
+                }
+                if ops >= max_ops || src.is_empty() {
+                    break;
+                }
+                ops += 1;
+                if pending.is_empty() || src.ratio(3, 5) {
+                    let sel = src.below(PRECS.len() as u64) as u8;
+                    let tab = gen_tab(src, PRECS[sel as usize], sel, 8);
+                    let sym = src.below_usize(tab.n());
+                    let r = with_prec!(tab.sel, $plist, |M| coder.encode_symbol(sym, M::new(&tab)));
+                    vassume!(ctx, r.is_ok(), "foreign:C01/encode_failed");
+                    note!(ctx, "encode sym={} {}", sym, tab.render());
+                    pending.push((sym, tab));
+                } else {
+                    let (sym, tab) = pending.pop().expect("checked");
+                    let r = with_prec!(tab.sel, $plist, |M| coder.decode_symbol(M::new(&tab)).ok());
+                    vassume!(ctx, r == Some(sym), "foreign:C01/decode_mismatch");
+                    note!(ctx, "decode -> {}", sym);
+                }
+            }
+            if probes_nonempty_bulk > 0 {
+                ctx.nontrivial();
+            }
+            Ok(())
+        }
+    };
+}
+
+pub mod size_rows {
+    use super::*;
+    for_ans_rows!(anssize_row);
+}
+
+pub fn ans_sizes(src: &mut Src, ctx: &mut Ctx) -> CaseResult {
+    match src.below(crate::cfg::N_ANS_ROWS as u64) {
+        0 => size_rows::r_u8_u16(src, ctx),
+        1 => size_rows::r_u8_u32(src, ctx),
+        2 => size_rows::r_u8_u64(src, ctx),
+        3 => size_rows::r_u16_u32(src, ctx),
+        4 => size_rows::r_u16_u64(src, ctx),
+        5 => size_rows::r_u32_u64(src, ctx),
+        6 => size_rows::r_u32_u128(src, ctx),
+        _ => size_rows::r_u64_u128(src, ctx),
+    }
+}
+
 pub mod msg_rows {
     use super::*;
     for_ans_rows!(ansmsg_row);
